@@ -1,4 +1,5 @@
 import UralModel.Lemmas.CanonRoundTrip
+import UralModel.Lemmas.CanonIdem
 /-!
 # C03: what the cleaning pass deletes is never produced raw by the safe unquoters
 
@@ -25,6 +26,7 @@ set_option linter.unusedSectionVars false
 
 namespace Ural.C03Control
 open Ural.Py Ural.UrlParts Ural.Quote Ural.Canonicalize Ural.UrlRoundTrip Ural.CanonRoundTrip
+  Ural.CanonIdem
 
 /-! ## finite unions of inclusive ranges of code points -/
 
@@ -545,7 +547,7 @@ theorem class_netloc {c : Char} (hc : c ∈ (canonParts puny quoted sf p).netloc
     intro d hd e; subst e
     have := hK.not_printable hd; rw [hk] at this; cases this
   have hn := noCtl_netloc_old hpc h
-  simp only [canonParts, unsplitNetloc_eq] at hc
+  rw [canonParts_netloc_eq] at hc
   rcases List.mem_append.1 hc with h1 | h1
   · exfalso
     rcases mem_authPart h1 with h2 | h2 | e | e
@@ -558,7 +560,7 @@ theorem class_netloc {c : Char} (hc : c ∈ (canonParts puny quoted sf p).netloc
     · exact hnp (d := ':') (by unfold Printable; decide) e
     · exact hnp (d := '@') (by unfold Printable; decide) e
   · rcases List.mem_append.1 h1 with h2 | h2
-    · rcases mem_hostPart h2 with h3 | e | e
+    · rcases mem_hostPartB h2 with h3 | e | e
       · obtain ⟨h0, _, _, hh, hch⟩ := host_mem hpc quoted sf h h3
         exact ⟨h0, hh, canonHost_bad puny hpc h0 hbad hch⟩
       · exact absurd e (hnp (d := '[') (by unfold Printable; decide))
@@ -567,9 +569,8 @@ theorem class_netloc {c : Char} (hc : c ∈ (canonParts puny quoted sf p).netloc
       · exact absurd e (hnp (d := ':') (by unfold Printable; decide))
       · exact absurd rfl (hnp (digit_printable h3))
 
-/-- **the printed canonical form holds no character of an escaped class — except what was raw
-in the parsed hostname** -/
-theorem class_of_printed {c : Char} (hc : c ∈ urlunsplit (canonParts puny quoted sf p))
+/-- the same for what `urlunsplit` alone prints -/
+theorem class_of_urlunsplit {c : Char} (hc : c ∈ urlunsplit (canonParts puny quoted sf p))
     (hk : K c = true) (hbad : isPunyBad c = true) : ∃ h0, p.hostname = some h0 ∧ c ∈ h0 := by
   have hnp : ∀ {d : Char}, Printable d → c ≠ d := by
     intro d hd e; subst e
@@ -596,6 +597,166 @@ theorem class_of_printed {c : Char} (hc : c ∈ urlunsplit (canonParts puny quot
     · exact hnp (d := '?') (by unfold Printable; decide) e
     · exact hnp (d := '#') (by unfold Printable; decide) e
 
+/-- **the printed canonical form holds no character of an escaped class — except what was raw
+in the parsed hostname** (the one component `canonicalize_url` does not unquote) -/
+theorem class_of_printed {c : Char} (hc : c ∈ printSplit (canonParts puny quoted sf p))
+    (hk : K c = true) (hbad : isPunyBad c = true) : ∃ h0, p.hostname = some h0 ∧ c ∈ h0 := by
+  have hnp : ∀ {d : Char}, Printable d → c ≠ d := by
+    intro d hd e; subst e
+    have := hK.not_printable hd; rw [hk] at this; cases this
+  rw [printed_eq hpc quoted sf h] at hc
+  simp only [List.mem_append, List.mem_cons] at hc
+  rcases hc with h1 | e | e | e | h1 | h1 | h1 | h1
+  · exfalso
+    simp only [Py.lower, List.mem_map] at h1
+    obtain ⟨d, hd, rfl⟩ := h1
+    exact hnp (printable_lowerChar (isSchemeChar_printable (schemeShaped_mem h.shaped d hd))) rfl
+  · exact absurd e (hnp (d := ':') (by unfold Printable; decide))
+  · exact absurd e (hnp (d := '/') (by unfold Printable; decide))
+  · exact absurd e (hnp (d := '/') (by unfold Printable; decide))
+  · exact class_netloc hpc hK quoted sf h h1 hk hbad
+  · have := noClass_path hpc hK quoted sf h c h1
+    rw [hk] at this; cases this
+  · rcases mem_queryPart h1 with h2 | e
+    · have := noClass_query hpc hK quoted sf h c h2
+      rw [hk] at this; cases this
+    · exact absurd e (hnp (d := '?') (by unfold Printable; decide))
+  · rcases mem_fragPart h1 with h2 | e
+    · have := noClass_fragment hpc hK quoted sf h c h2
+      rw [hk] at this; cases this
+    · exact absurd e (hnp (d := '#') (by unfold Printable; decide))
+
 end
 
+/-! ## the last character of the printed result -/
+
+theorem getLast?_hostPartB {b : Bool} {H : Str} {c : Char}
+    (h : (hostPartB b H).getLast? = some c) : c = ']' ∨ H.getLast? = some c := by
+  have e : ∀ H : Str, ('[' :: H ++ [']']).getLast? = some ']' := by
+    intro H
+    rw [show '[' :: H ++ [']'] = ('[' :: H) ++ [']'] by simp, List.getLast?_concat]
+  unfold hostPartB at h
+  split at h
+  · rw [e] at h; cases h; exact Or.inl rfl
+  · unfold hostPart at h
+    split at h
+    · rw [e] at h; cases h; exact Or.inl rfl
+    · exact Or.inr h
+
+theorem digit_not_space {c : Char} (h : isAsciiDigit c = true) : isSpace c = false := by
+  cases hsp : isSpace c with
+  | false => rfl
+  | true =>
+    exfalso
+    have := digit_printable h
+    unfold Printable at this
+    simp only [isSpace, spaceCodes, List.contains_cons, List.contains_nil, Bool.or_false,
+      Bool.or_eq_true, beq_iff_eq] at hsp
+    omega
+
+section
+variable {puny : Str → Str} (hpc : PunyClean puny) (hK : EscapedClass isSpace)
+  (quoted sf : Bool) {S rest : Str} {p : Parsed} (h : FromParse S rest p)
+include hpc hK h
+
+/-- no white-space character in the printed path, query and fragment (both modes) -/
+theorem noSpace_tail_modes :
+    ∀ c ∈ (canonParts puny quoted sf p).path ++
+        (queryPart (canonParts puny quoted sf p).query ++
+          fragPart ((canonParts puny quoted sf p).fragment.getD [])), isSpace c = false := by
+  intro c hc
+  simp only [List.mem_append] at hc
+  rcases hc with hc | hc | hc
+  · exact noClass_path hpc hK quoted sf h c hc
+  · rcases mem_queryPart hc with h1 | rfl
+    · exact noClass_query hpc hK quoted sf h c h1
+    · decide
+  · rcases mem_fragPart hc with h1 | rfl
+    · exact noClass_fragment hpc hK quoted sf h c h1
+    · decide
+
+/-- **the printed result does not end with a white-space character** — both modes, no side
+condition: path, query and fragment hold none (escaped class), the port is digits, a
+bracketed host ends with `]`, and a bare host ending with white space is followed by a slash -/
+theorem printed_last_modes :
+    ∀ c, (printSplit (canonParts puny quoted sf p)).getLast? = some c → isSpace c = false := by
+  intro c hc
+  rw [printed_eq hpc quoted sf h] at hc
+  have hT := noSpace_tail_modes hpc hK quoted sf h
+  by_cases hT0 : (canonParts puny quoted sf p).path ++
+      (queryPart (canonParts puny quoted sf p).query ++
+        fragPart ((canonParts puny quoted sf p).fragment.getD [])) = []
+  · rw [hT0, List.append_nil] at hc
+    have hp0 : (canonParts puny quoted sf p).path = [] := (List.append_eq_nil_iff.1 hT0).1
+    have hmore : hasMore puny sf p = false := by
+      have e : (canonParts puny quoted sf p).path = (canonComps puny quoted sf p).path := rfl
+      rw [e, canonComps_path_eq hpc quoted sf h] at hp0
+      cases quoted with
+      | false =>
+        simp only [finishPath, Bool.false_eq_true, if_false] at hp0
+        exact canonPath_eq_nil (unquotePath_eq_nil hp0)
+      | true =>
+        simp only [finishPath, if_true] at hp0
+        exact canonPath_eq_nil (safelyQuote_eq_nil hp0)
+    have hends : hostEndsUrl puny p = false := by
+      unfold hasMore at hmore
+      rw [Bool.or_eq_false_iff] at hmore
+      exact hmore.2
+    rw [hostEndsUrl_eq puny quoted sf p] at hends
+    by_cases hn0 : (canonParts puny quoted sf p).netloc = []
+    · rw [hn0] at hc
+      have e : lower S ++ [':', '/', '/'] = (lower S ++ [':', '/']) ++ ['/'] := by simp
+      rw [e, List.getLast?_concat] at hc
+      cases hc; decide
+    · have e : lower S ++ ':' :: '/' :: '/' :: (canonParts puny quoted sf p).netloc =
+          (lower S ++ [':', '/', '/']) ++ (canonParts puny quoted sf p).netloc := by simp
+      rw [e, getLast?_append_of_ne_nil hn0, canonParts_netloc_eq] at hc
+      rw [canonParts_netloc_eq] at hn0
+      cases hport : (canonComps puny quoted sf p).port with
+      | some n =>
+        rw [hport] at hc
+        have hpn : portPart (some n) ≠ [] := by simp [portPart]
+        rw [← List.append_assoc, getLast?_append_of_ne_nil hpn] at hc
+        rcases mem_portPart (List.mem_of_getLast? hc) with rfl | hd
+        · decide
+        · exact digit_not_space hd
+      | none =>
+        rw [hport] at hc hn0 hends
+        simp only [portPart, List.append_nil, Option.isNone_none, Bool.true_and] at hc hn0 hends
+        by_cases hHP : hostPartB (bflag puny quoted sf p) (strOf (canonComps puny quoted sf p).host) = []
+        · rw [hHP, List.append_nil] at hc hn0
+          unfold authPart at hc hn0
+          split at hc
+          · rw [List.getLast?_concat] at hc; cases hc; decide
+          · split at hc
+            · rw [List.getLast?_concat] at hc; cases hc; decide
+            · rename_i h1 h2; simp [h1, h2] at hn0
+        · rw [getLast?_append_of_ne_nil hHP] at hc
+          rcases getLast?_hostPartB hc with rfl | hl
+          · decide
+          · cases hb : bflag puny quoted sf p with
+            | true =>
+              rw [hb] at hc
+              simp only [hostPartB, if_true] at hc
+              rw [show '[' :: strOf (canonComps puny quoted sf p).host ++ [']'] =
+                ('[' :: strOf (canonComps puny quoted sf p).host) ++ [']'] by simp,
+                List.getLast?_concat] at hc
+              cases hc
+              decide
+            | false =>
+              rw [hb] at hends
+              simp only [Bool.false_eq_true, if_false] at hends
+              exact endsWithSpace_false hends c hl
+  · have e : lower S ++ ':' :: '/' :: '/' :: ((canonParts puny quoted sf p).netloc ++
+        ((canonParts puny quoted sf p).path ++
+          (queryPart (canonParts puny quoted sf p).query ++
+            fragPart ((canonParts puny quoted sf p).fragment.getD [])))) =
+        (lower S ++ ':' :: '/' :: '/' :: (canonParts puny quoted sf p).netloc) ++
+        ((canonParts puny quoted sf p).path ++
+          (queryPart (canonParts puny quoted sf p).query ++
+            fragPart ((canonParts puny quoted sf p).fragment.getD []))) := by simp
+    rw [e, getLast?_append_of_ne_nil hT0] at hc
+    exact hT c (List.mem_of_getLast? hc)
+
+end
 end Ural.C03Control
